@@ -75,6 +75,29 @@ class GenDomain(OpsDomain):
             return {"<": o < 0, "<=": o <= 0, ">": o > 0, ">=": o >= 0, "==": o == 0, "!=": o != 0}[op]
         return OpsDomain.abs_binop(self, op, a, b, e, fr)
 
+    def range_for(self, s, fr):
+        it = self.interp
+        r = it.eval(s["range"], fr)
+        r = r.get() if isinstance(r, Cell) else r
+        if isinstance(r, SetObj):
+            # ascending order; an element inserted during the loop is visited iff it is larger than the current one
+            from .interp import BreakEx, ContinueEx
+            v = s["var"]
+            pos = 0
+            while pos < len(r.items):
+                cur = r.items[pos]
+                fr.vars[v["id"]] = Cell(cur, v["name"])
+                try:
+                    it.exec(s["body"], fr)
+                except BreakEx:
+                    break
+                except ContinueEx:
+                    pass
+                # the element may have moved if something smaller was inserted: continue after it
+                pos = next((i for i, x in enumerate(r.items) if x is cur), pos) + 1
+            return
+        return OpsDomain.range_for(self, s, fr)
+
     def iter_range(self, first, last, e):
         """the values in [first, last): a pair of vector iterators or of std::set iterators"""
         from .conc import PtrInto
@@ -145,6 +168,13 @@ class GenDomain(OpsDomain):
             def apply(fn, *xs):
                 if isinstance(fn, tuple) and fn and fn[0] == "lambda":
                     r = self.call_lambda(fn, list(xs), e)
+                elif isinstance(fn, tuple) and fn and fn[0] == "fnref":
+                    cands_ = [f for f in self.prog.fns(fn[1]) if len(f["params"]) == len(xs)]
+                    if len(cands_) > 1 and e.get("l"):
+                        cands_ = [f for f in cands_ if f.get("l") and f["l"][0] == e["l"][0]] or cands_
+                    if len(cands_) != 1:
+                        raise AnalysisBroken("function %s used as a predicate in %s is not defined once with %d parameters (%s)" % (fn[1], base, len(xs), ir.locstr(e)))
+                    r = it.call_function(cands_[0], None, list(xs), e)
                 elif isinstance(fn, tuple) and fn and fn[0] == "functor":
                     op = {"greater_equal": ">=", "greater": ">", "less": "<", "less_equal": "<=", "equal_to": "=="}[fn[1]]
                     r = self.binop(op, xs[0], xs[1], e, fr)
@@ -200,6 +230,19 @@ class GenDomain(OpsDomain):
             if q > 0 and q.denominator == 1 and (q.numerator & (q.numerator - 1)) == 0:
                 return dag.const(q.numerator.bit_length() - 1)
             return dag.const(Fraction(math.log2(q)))
+        if k == "Call" and base in ("std::next", "std::prev") and len(args) in (1, 2):
+            cur = it.rvalue(args[0], fr)
+            n = it.rvalue(args[1], fr) if len(args) == 2 else 1
+            n = n if base == "std::next" else -n
+            from .conc import PtrInto
+            if isinstance(cur, SetIter) and isinstance(n, int):
+                if not (0 <= cur.pos + n <= len(cur.s.items)):
+                    from . import conc
+                    self.oob.append(("std::set", cur.pos + n, len(cur.s.items), ir.locstr(e)))
+                    conc.GLOBAL_OOB.append(("std::set iterator", cur.pos + n, len(cur.s.items), ir.locstr(e)))
+                return SetIter(cur.s, cur.pos + n)
+            if isinstance(cur, PtrInto) and isinstance(n, int):
+                return PtrInto(cur.arr, cur.off + n)
         if k == "Call" and base == "std::advance" and len(args) == 2:
             c = it.eval(args[0], fr)
             n = it.rvalue(args[1], fr)
